@@ -2,10 +2,11 @@
    kind = property*100 + sub-model.  [run] = what the model says the implementation must
    output on this input; [mon] = the property's monitor applied to the implementation's own
    observed output. *)
-From RainV Require Import Lib Tier Geometry SectionIO Meta Paths Wire Stree AddrList Cache Tracker Announcer Picker Ram InfoDl Magnet Admission PieceDl.
+From RainV Require Import Lib Tier Geometry SectionIO Meta Paths Wire Stree AddrList Cache Tracker Announcer Picker Ram InfoDl Magnet Admission PieceDl Leech.
 
 Definition run (kind : Z) (inp : list Z) : list Z :=
   match kind with
+  | 101 => run_leech true inp
   | 102 => run_piecedl inp
   | 201 => run_new_pieces inp
   | 202 => run_calc_blocks inp
@@ -42,6 +43,7 @@ Definition run (kind : Z) (inp : list Z) : list Z :=
 
 Definition mon (kind : Z) (inp obs : list Z) : bool :=
   match kind with
+  | 101 => list_eqb_Z (run_leech true inp) obs
   | 102 => list_eqb_Z (run_piecedl inp) obs
   | 201 => mon_new_pieces inp obs
   | 202 => mon_calc_blocks inp obs
